@@ -49,7 +49,7 @@ def validate(ctx, module, events, tag, plan_lines=None, cfg=None, matcher=None, 
     shards, n = vf.split_file(trace, vf.NCPU, ctx.work, tag)
     os.remove(trace)
     probe = binding_probe(ctx, events, tag, corrupt=corrupt)
-    rejects, stats, errors = vf.tlc_validate(module, shards + ([probe] if probe else []), cfg=cfg, env_extra=env_extra)
+    rejects, stats, errors = vf.tlc_validate(module, shards + ([probe] if probe else []), cfg=cfg, env_extra=env_extra, timeout=1500 if ctx.quick else 10800)
     if errors:
         raise vf.InfraError("TLC trace validation failed on %s (rc=%s):\n%s" % (errors[0][0], errors[0][1], errors[0][2]))
     for s in shards:
